@@ -124,6 +124,13 @@ def uncommit(
                 parents.extend(reversed(pending_merges))
                 tree.set_parent_ids(parents)
             if branch.supports_tags() and not keep_tags:
+                if master is not None:
+                    # Deleting a tag from a bound branch also deletes it from
+                    # the master, which the tags code opens and write-locks
+                    # itself: release our own lock on the master first (its
+                    # tip has already been moved) to avoid LockContention.
+                    unlockable.remove(master)
+                    master.unlock()
                 remove_tags(branch, graph, old_tip, parents)
     finally:
         for item in reversed(unlockable):
